@@ -59,6 +59,7 @@ type env struct {
 	inflight *concurrency
 
 	mu          sync.Mutex
+	prodFound   []prodFinding
 	canons      map[int]map[string]canon
 	wantSamples map[string]struct{}
 	infra       int
@@ -205,6 +206,22 @@ func (s *udpSession) exchange(in *input, wantAnswer bool) (o observation) {
 				}
 
 				o.res = tbench.Result{Outcome: tbench.Answered, Responses: [][]byte{d}, WireLens: []int{len(d)}}
+				for s.p.quiet > 0 {
+					// Read until quiet: a datagram with the same ID is a
+					// further response to this request.
+					more, qErr := s.recv(s.p.quiet)
+					if qErr != nil {
+						break
+					}
+
+					if len(more) >= 2 && binary.BigEndian.Uint16(more) == id && t == 0 {
+						rec.responses++
+						o.res.Responses = append(o.res.Responses, more)
+						o.res.WireLens = append(o.res.WireLens, len(more))
+					} else {
+						s.attribute(more)
+					}
+				}
 				if t > 0 {
 					// Answered only after a retransmission: either the
 					// datagram or the answer was lost, or the server dropped a
@@ -249,6 +266,12 @@ func (s *udpSession) extra(rec *sentRec, d []byte) {
 	key, what := "extra-response", "more responses than transmissions arrived for one request"
 	if !rec.wantAnswer {
 		key, what = "late-unexpected-response", "a response arrived (late) for an input that must not be answered"
+	}
+
+	if rec.in.family == "prod" && rec.in.cls == clsAccept {
+		s.e.prodProblem(rec.in, s.p.name, key, what, tbench.Result{Outcome: tbench.Answered, Responses: [][]byte{d}})
+
+		return
 	}
 
 	w := rec.in.witness()
@@ -361,8 +384,30 @@ func (s *streamSession) exchange(in *input, wantAnswer bool) (o observation) {
 			o.res = s.c.Exchange(in.wire, wait)
 		}
 
+		if o.res.Outcome == tbench.Answered && s.p.quiet > 0 && s.dc == nil {
+			// Read until quiet: anything that follows is a further response to
+			// this request.
+			for {
+				more, _, rErr := s.c.ReadFrame(s.p.quiet)
+				if rErr != nil {
+					if rErr == tbench.ErrClosed {
+						s.drop()
+					}
+
+					break
+				}
+
+				o.res.Responses = append(o.res.Responses, more)
+				o.res.WireLens = append(o.res.WireLens, len(more))
+			}
+		}
+
 		if o.res.Outcome == tbench.Answered {
-			if raw := o.res.One(); len(raw) < 2 || len(in.wire) < 2 || raw[0] != in.wire[0] || raw[1] != in.wire[1] {
+			if s.stream() == nil {
+				return o
+			}
+
+			if raw := o.res.Responses[0]; len(raw) < 2 || len(in.wire) < 2 || raw[0] != in.wire[0] || raw[1] != in.wire[1] {
 				// Not the response to this request: the stream is out of
 				// step; start the next request on a fresh connection so that
 				// one fault is reported once.
@@ -709,6 +754,9 @@ func groupOf(in *input) (g string) {
 	if in.family == "probe" {
 		return "liveness"
 	}
+	if in.family == "prod" && in.cls == clsAccept {
+		return "prod:" + in.tag
+	}
 
 	return in.cls.String()
 }
@@ -798,6 +846,35 @@ func (e *env) judge(p *pathDef, in *input, exp expectation, res tbench.Result) (
 		return checkRcodeResponse(in, raw, []int{dns.RcodeServerFailure}, true, true), nil, ""
 	case expQUICProtocolError:
 		return quicProtocolError(), nil, ""
+	case expOne:
+		raw, ps := one()
+		if ps != nil && res.Outcome == tbench.Answered && len(res.Responses) > 1 && len(res.Responses[0]) >= 12 {
+			// More than one response: what the first one says still takes part
+			// in the comparison of the transports.
+			first := &dns.Msg{}
+			if first.Unpack(res.Responses[0]) == nil {
+				cn := canonOf(first, first.Truncated)
+
+				return ps, &cn, ""
+			}
+		}
+		if ps != nil {
+			return ps, nil, ""
+		}
+
+		resp := &dns.Msg{}
+		if err := resp.Unpack(raw); err != nil {
+			return []problem{{"response-undecodable", "the response does not parse: " + err.Error()}}, nil, ""
+		}
+
+		ps = checkEchoes(in, raw, resp, true)
+		if qEnd := questionEnd(in.wire); qEnd > 0 && (len(raw) < qEnd || !bytes.Equal(raw[12:qEnd], in.wire[12:qEnd])) && len(ps) == 0 {
+			ps = append(ps, problem{"question-bytes-differ", "the question section of the response is not byte-equal to the request's"})
+		}
+
+		cn := canonOf(resp, resp.Truncated)
+
+		return ps, &cn, ""
 	}
 
 	// expNothing and expDrop.
@@ -829,6 +906,29 @@ func (e *env) judge(p *pathDef, in *input, exp expectation, res tbench.Result) (
 	return []problem{{"wrong-treatment:" + string(res.Outcome), "expected the documented " + exp.kind.String() + " treatment, observed " + res.String()}}, nil, ""
 }
 
+// questionEnd returns the offset behind the first question of a message whose
+// question name is not compressed, or 0.
+func questionEnd(wire []byte) (off int) {
+	off = 12
+	for off < len(wire) {
+		l := int(wire[off])
+		if l == 0 {
+			if off+5 <= len(wire) {
+				return off + 5
+			}
+
+			return 0
+		}
+		if l&0xc0 != 0 {
+			return 0
+		}
+
+		off += 1 + l
+	}
+
+	return 0
+}
+
 func decodeAll(res tbench.Result) (s string) {
 	var parts []string
 	for _, raw := range res.Responses {
@@ -847,6 +947,14 @@ func (e *env) report(p *pathDef, in *input, exp expectation, res tbench.Result, 
 		key := groupOf(in) + ":" + p.name + ":" + pr.key
 		if in.cls == clsAccept && in.family != "probe" {
 			key = "accept/" + exp.tag + ":" + p.name + ":" + pr.key
+		}
+
+		if in.family == "prod" && in.cls == clsAccept {
+			// Collected and reported per problem and common input features at
+			// the end of the phase, see prodSummarise.
+			e.prodProblem(in, p.name, pr.key, pr.what, res)
+
+			continue
 		}
 
 		if p.family == famDoQ && (res.Outcome == tbench.Answered || res.Outcome == tbench.QUICError) &&
@@ -946,7 +1054,11 @@ func (e *env) account(p *pathDef, in *input, exp expectation, o observation) {
 		e.r.Bucket("http_proto:"+p.name+":"+o.res.HTTPProto, 1)
 	}
 
-	if c != nil && in.family != "probe" && (in.family == "valid" || in.family == "valid-large") {
+	if in.family == "prod" && o.res.Outcome == tbench.Answered {
+		e.r.Bucket("prod_answered:"+p.name, 1)
+	}
+
+	if c != nil && (in.family == "valid" || in.family == "valid-large" || in.family == "prod") {
 		e.mu.Lock()
 		if e.canons[in.idx] == nil {
 			e.canons[in.idx] = map[string]canon{}
@@ -1279,6 +1391,18 @@ func (e *env) runPipelined(p *pathDef, s *streamSession, mine []*input) {
 
 // crossCompare checks that the transports agree on every well-formed query.
 func (e *env) crossCompare(r *vkit.Run, ins []*input) {
+	e.crossCompareWith(allPaths, ins, func(_ *input, field string) string { return "cross-transport:" + field })
+}
+
+// crossCompareWith is crossCompare over the given paths with a caller-chosen
+// violation key.
+func (e *env) crossCompareWith(order []*pathDef, ins []*input, keyFor func(in *input, field string) string) {
+	r := e.r
+	counter := "cross_transport_comparisons"
+	if len(order) > 0 && order[0].prod {
+		counter = "prod_cross_transport_comparisons"
+	}
+
 	for _, in := range ins {
 		cs := e.canons[in.idx]
 		if len(cs) < 2 {
@@ -1287,7 +1411,7 @@ func (e *env) crossCompare(r *vkit.Run, ins []*input) {
 
 		// Deterministic order, full responses first.
 		var names []string
-		for _, p := range allPaths {
+		for _, p := range order {
 			if _, ok := cs[p.name]; ok {
 				names = append(names, p.name)
 			}
@@ -1311,7 +1435,7 @@ func (e *env) crossCompare(r *vkit.Run, ins []*input) {
 			}
 
 			a, b := cs[base], cs[n]
-			r.Bucket("cross_transport_comparisons", 1)
+			r.Bucket(counter, 1)
 
 			diffs := []string{}
 			if a.hdr != b.hdr {
@@ -1328,11 +1452,18 @@ func (e *env) crossCompare(r *vkit.Run, ins []*input) {
 			}
 
 			for _, d := range diffs {
+				if in.family == "prod" {
+					e.prodProblem(in, base+"~"+n, "cross-transport:"+d,
+						fmt.Sprintf("%s and %s disagree: %+v vs %+v", base, n, a, b), tbench.Result{})
+
+					continue
+				}
+
 				w := in.witness()
 				w["path_a"], w["path_b"] = base, n
 				w["canon_a"] = fmt.Sprintf("%+v", a)
 				w["canon_b"] = fmt.Sprintf("%+v", b)
-				r.Violation("cross-transport:"+d, "two transports disagree on the same query beyond truncation, padding and keep-alive", w)
+				r.Violation(keyFor(in, d), "two transports disagree on the same query beyond truncation, padding and keep-alive", w)
 			}
 		}
 	}
